@@ -693,6 +693,21 @@ func genSecSpec(g *Gen, w *bufio.Writer) {
 			fmt.Fprintf(w, "snasenc %d %s %d %d %d %s\n", alg, key(), uint32(g.U64()), g.Intn(32), g.Intn(2), hexs(data))
 		}
 	}
+	// the algorithms interleaved in one process (a call must not see anything an earlier call with another algorithm, key,
+	// COUNT, bearer or direction left behind): every ordered pair of algorithms back to back, then a random walk
+	for a := 1; a <= 3; a++ {
+		for b := 1; b <= 3; b++ {
+			for _, n := range []int{1, 16, 17, 33} {
+				fmt.Fprintf(w, "snasenc %d %s %d %d %d %s\n", a, key(), uint32(g.U64()), g.Intn(32), g.Intn(2), hexs(g.Bytes(n)))
+				fmt.Fprintf(w, "snasenc %d %s %d %d %d %s\n", b, key(), uint32(g.U64()), g.Intn(32), g.Intn(2), hexs(g.Bytes(n)))
+				fmt.Fprintf(w, "snasmac %d %s %d %d %d %s\n", a, key(), uint32(g.U64()), g.Intn(32), g.Intn(2), hexs(g.Bytes(n)))
+				fmt.Fprintf(w, "snasmac %d %s %d %d %d %s\n", b, key(), uint32(g.U64()), g.Intn(32), g.Intn(2), hexs(g.Bytes(n)))
+			}
+		}
+	}
+	for i := 0; i < 200; i++ {
+		fmt.Fprintf(w, "snasenc %d %s %d %d %d %s\n", 1+g.Intn(3), key(), uint32(g.U64()), g.Intn(32), g.Intn(2), hexs(g.Bytes(g.Intn(70))))
+	}
 	// ZUC LFSR step against its definition over GF(2^31-1): random in-range states and states steered into the residue
 	// class 0 (which the specification maps to 2^31-1), in both modes
 	const M = uint64(0x7fffffff)
